@@ -2,9 +2,12 @@
 plus the property oracle (exactly-the-right-responses, only LoginFailed) on the real code.
 
 A case is one history: a factory (private key, realm), challenges issued at chosen clock values to chosen
-client addresses (the real getChallenge with secureRandom patched to the case's bytes), then ONE response
+client addresses (the real getChallenge with secureRandom patched to the case's bytes), then ONE response header
 (built by an RFC 2617 client written here with hashlib, optionally tampered; or a raw header) decoded at a
-chosen clock value from a chosen address, then checkPassword for a list of passwords.
+chosen clock value from a chosen address, then checkPassword (and checkHash) for a list of passwords.
+Optionally (`pre`) the same header is presented to the same factory earlier, at other clock values / from other
+addresses, and every presentation is judged; optionally (`via: web`) the whole history goes through
+twisted.web._auth.digest.DigestCredentialFactory and request objects.
 """
 import base64
 import hashlib
@@ -15,14 +18,23 @@ from twisted.cred import _digest, credentials
 from twisted.cred.error import LoginFailed
 
 HEADLINE = "TwistedProps.C48.accepts_iff_right_password_unaltered_challenge_same_client_within_lifetime"
-RULE = ("histories: 1..3 challenges issued at clock values (quarter seconds) to None/''/b''/str/bytes hosts; one response "
-        "from an RFC 2617 client (md5/MD5/sha/md5-sess/absent algorithm, qop auth or absent, quoted or bare values, three "
-        "separators) over the issued or a tampered nonce and opaque (byte flip/insert/delete/truncate, junk inside and after "
-        "the base64, non-canonical padding bits, parts swapped between challenges, forged with a wrong key, forged with the "
-        "real key for the tie only), from the same / an equivalent / another address, at issue time, at lifetime-1/+0/+1 s, "
-        "far beyond, before; malformed stream: omitted fields, unknown algorithm, auth-int, md5-sess without cnonce, "
-        "non-ASCII field names, duplicate fields, byte-level mutations of the whole header, raw junk. "
-        "distinct = (decode outcome, tamper kinds, address relation, time relation, algorithm, qop, password pattern)")
+RULE = ("histories on ONE factory: 1..3 challenges issued at clock values (quarter seconds) to None/''/b''/str/bytes hosts; one response "
+        "from an RFC 2617 client (md5/MD5/sha/md5-sess/absent algorithm, qop auth or absent, quoted or bare values; separators: "
+        "comma with optional whitespace / TAB / folded lines after it and, for the tie, before it; leading / trailing whitespace; "
+        "empty quoted uri; uri / user name of 0.2..4 kB, 9..15 kB thorough; methods GET/POST/get/M-SEARCH/REGISTER/empty) over the issued or a "
+        "tampered nonce and opaque (byte flip/insert/delete/truncate, junk inside and after "
+        "the base64, extra '=', non-canonical padding bits, upper-cased digest, parts swapped between challenges, forged with a wrong key "
+        "— time field in every spelling int()/float() parsers take: signs, underscores, 4300/4301 digits, inf/nan/exponents/radix "
+        "prefixes/non-ASCII digits — forged with the real key for the tie only), from the same / an equivalent / another address, at "
+        "issue time, at lifetime-1/+0/+1 s, far beyond, before; PRESENTED 1..3 TIMES to the same factory at different clock values and "
+        "from different addresses (valid then expired, valid then valid, refused then valid, ...), every presentation judged; "
+        "15 % of the histories run through twisted.web._auth.digest.DigestCredentialFactory with request objects (client address "
+        "vs the server's own); replay headers: a captured response plus the nonce/opaque of ANOTHER live challenge, first or last, "
+        "same or other capitalisation; fields of the same challenge sent twice; malformed stream: omitted fields (incl. response), "
+        "unknown algorithm, auth-int, other qop values, md5-sess without cnonce, "
+        "non-ASCII field names, duplicate fields, byte-level mutations of the whole header, raw junk; checkHash(H(A1)) next to every "
+        "checkPassword. distinct = (decode outcome, tamper kinds, address relation, time relation, algorithm, qop, password pattern, "
+        "separator class, size class, duplicated fields, outcomes of the earlier presentations, direct / web)")
 ASSUMES = [
     "hash functions are modelled symbolically: theorems assume H injective (MD5/SHA-1 collisions are outside the model) and "
     "that a client who does not know privateKey can present only digests it was issued (Dolev-Yao); nonce unpredictability is not modelled",
@@ -30,17 +42,28 @@ ASSUMES = [
     "client addresses are None, ASCII str or bytes without ',' (IP literals); sys.get_int_max_str_digits() is the default 4300",
     "the 'challenge' of the statement is its nonce and opaque (the dimensions the statement lists); the response's own "
     "algorithm/qop/uri fields are the client's to choose, as in the code",
+    "a factory is modelled without state between calls (decodeAll = map decode); that the real factory behaves the same when one "
+    "response is presented repeatedly is checked by the differential runs (op runh), not proved about the Python",
+    "the 'if' direction is asserted by the oracle for renderings every value survives: comma followed by optional whitespace / "
+    "folding, or surrounded by spaces; whitespace before a comma that is not followed by a space after a QUOTED value "
+    "(`a=\"x\" ,b=..`) is legal list syntax the parser does not read (the comma joins the next key) — compared with the model only",
+    "twisted.web wrapper: addresses are the str hosts of IPv4Address/IPv6Address (a UNIXAddress peer has no .host at all)",
 ]
 TRUSTED = ["hashlib md5/sha1 (digests are handed to the Lean model as a table recorded from the same run)",
-           "CPython base64/binascii/re/int semantics as transcribed in TwistedModel/Cred/Digest.lean (differentially tied)"]
+           "CPython base64/binascii/re/int semantics as transcribed in TwistedModel/Cred/Digest.lean (differentially tied)",
+           "twisted.web.test.requesthelper.DummyRequest / twisted.internet.address as the request fakes of the web-wrapper runs"]
 MANIFEST = {
     "text": "Lean theorems (TwistedProps/C48.lean) over the model of DigestCredentialFactory/DigestedCredentials for all "
             "byte strings, clocks and addresses: decode fails only with LoginFailed and checkPassword never raises; an issued "
             "opaque verifies iff presented with its nonce from its address within the lifetime; under injective H and the "
             "Dolev-Yao hypothesis on the opaque digest an accepted response carries byte-for-byte an issued nonce/opaque, from "
-            "that address, in time, and the password is accepted iff it is the one the response was computed with. Model tied "
-            "to credentials.py/_digest.py by differential runs of whole histories with the real hashlib digests.",
-    "note": "trusts Lean kernel, the hand-written model (differentially tied), symbolic hash idealisation, CPython base64/re/int",
+            "that address, in time, and the password is accepted iff it is the one the response was computed with; the same for "
+            "the i-th response of any history of responses presented to one factory (history_accepts_iff). Model tied "
+            "to credentials.py/_digest.py (and the twisted.web wrapper factory) by differential runs of whole histories, each "
+            "response presented up to three times, with the real hashlib digests; the oracle judges every presentation from "
+            "what the client sent (which nonce and password the digest was computed over), not from what the credentials report.",
+    "note": "trusts Lean kernel, the hand-written model (differentially tied, incl. statelessness of the factory), symbolic hash "
+            "idealisation, CPython base64/re/int",
     "technique": "Lean 4 proof (base64 round trip, split/join, decimal round trip, injectivity chains) + differential tie",
     "design_ref": "DESIGN.md §7.6 C48",
 }
@@ -202,8 +225,20 @@ def build_header(case, chals):
         fields = fields[:p] + [(unhx(k), unhx(v))] + fields[p:]
     rot = cl.get("rot", 0) % max(1, len(fields))
     fields = fields[rot:] + fields[:rot]
+    for pos, k, src in cl.get("dup") or []:  # a further field whose value is taken from an issued challenge
+        if src[0] == "n":
+            v = chals[src[1] % len(chals)]["nonce"] if chals else b"00"
+        elif src[0] == "o":
+            v = chals[src[1] % len(chals)]["opaque"] if chals else b"0-0"
+        elif src[0] == "r":  # the digest of this response again
+            v = resp
+        else:
+            v = unhx(src[1])
+        p = len(fields) if pos < 0 else pos % (len(fields) + 1)
+        fields = fields[:p] + [(unhx(k), v)] + fields[p:]
     q = b'"' if cl["quotes"] else b""
     header = unhx(cl["sep"]).join(k + b"=" + q + v + q for k, v in fields)
+    header = unhx(cl.get("lead", "-")) + header + unhx(cl.get("tail", "-"))
     for m in cl.get("header_mut") or []:
         header = mutate_bytes(header, m)
     return header, nonce, opaque
@@ -231,6 +266,29 @@ class _Rec:
         out = self._h.digest()
         self._table.append((self._kind, self._data, out))
         return out
+
+
+def _via_web(case):
+    """The history goes through twisted.web._auth.digest.DigestCredentialFactory and request objects (only possible
+    when every address is a non-empty str, as twisted.web's own addresses are)."""
+    if case.get("via") != "web":
+        return False
+    hosts = [i["host"] for i in case["issues"]] + [e["host"] for e in case.get("pre") or []] + [case["host"]]
+    return all(h[0] == "s" and h[1] for h in hosts)
+
+
+def _request(method, host):
+    from twisted.internet.address import IPv4Address, IPv6Address
+    from twisted.web.test.requesthelper import DummyRequest
+    r = DummyRequest([])
+    r.method = method
+    h = host_obj(host)
+    r.client = (IPv6Address if ":" in h else IPv4Address)("TCP", h, 40000 + len(h))
+    return r
+
+
+def _events(case):
+    return [{"now": e["now"], "host": e["host"]} for e in case.get("pre") or []] + [{"now": case["now"], "host": case["host"]}]
 
 
 def _execute(case):
@@ -261,38 +319,57 @@ def _execute(case):
     _digest.algorithms[b"md5"] = mk("m", real_md5)
     _digest.algorithms[b"md5-sess"] = mk("m", real_md5)
     _digest.algorithms[b"sha"] = mk("s", real_sha1)
-    R = {"chals": [], "dec": None, "user": None, "fields": None, "pw": [], "header": b""}
+    R = {"chals": [], "dec": None, "user": None, "fields": None, "pw": [], "hash": [], "header": b"", "events": []}
+    web = _via_web(case)
+    realm, method = unhx(case["realm"]), unhx(case["method"])
     try:
-        f = credentials.DigestCredentialFactory(case["falg"].encode(), unhx(case["realm"]))
+        if web:
+            from twisted.web._auth.digest import DigestCredentialFactory as WebFactory
+            w = WebFactory(case["falg"].encode(), realm)
+            f = w.digest
+        else:
+            w = None
+            f = credentials.DigestCredentialFactory(case["falg"].encode(), realm)
         f.privateKey = unhx(case["pk"])
         clock = [0.0]
         f._getTime = lambda: clock[0]
         for iss in case["issues"]:
             clock[0] = iss["t"] / 4.0
             rnd.append(unhx(iss["rnd"]))
-            ch = f.getChallenge(host_obj(iss["host"]))
+            ch = w.getChallenge(_request(method, iss["host"])) if web else f.getChallenge(host_obj(iss["host"]))
             R["chals"].append({"nonce": ch["nonce"], "opaque": ch["opaque"], "t": iss["t"], "host": iss["host"]})
         header, sn, so = build_header(case, R["chals"])
         R["header"], R["sent_nonce"], R["sent_opaque"] = header, sn, so
-        clock[0] = case["now"] / 4.0
-        creds = None
-        try:
-            creds = f.decode(header, unhx(case["method"]), host_obj(case["host"]))
-            R["dec"] = "ok"
-        except LoginFailed:
-            R["dec"] = "!LoginFailed"
-        except Exception as e:  # noqa: BLE001 - the class is the observable
-            R["dec"] = "!" + type(e).__name__
-        if creds is not None:
-            R["user"] = creds.username
-            R["fields"] = {k.encode("ascii"): v for k, v in creds.fields.items()}
-            for p in case["pws"]:
-                del expected[:]
-                try:
-                    b = creds.checkPassword(unhx(p))
-                    R["pw"].append(((hx(expected[-1]) if expected else "x"), bool(b), None))
-                except Exception as e:  # noqa: BLE001
-                    R["pw"].append(("x", False, type(e).__name__))
+        for ev in _events(case):  # every response of the history is decoded by the SAME factory
+            E = {"now": ev["now"], "host": ev["host"], "dec": None, "user": None, "fields": None, "pw": [], "hash": []}
+            R["events"].append(E)
+            clock[0] = ev["now"] / 4.0
+            creds = None
+            try:
+                creds = w.decode(header, _request(method, ev["host"])) if web else f.decode(header, method, host_obj(ev["host"]))
+                E["dec"] = "ok"
+            except LoginFailed:
+                E["dec"] = "!LoginFailed"
+            except Exception as e:  # noqa: BLE001 - the class is the observable
+                E["dec"] = "!" + type(e).__name__
+            if creds is not None:
+                E["user"] = creds.username
+                E["fields"] = {k.encode("ascii"): v for k, v in creds.fields.items()}
+                a = creds.fields.get("algorithm", b"md5").lower()
+                a = "sha" if a == b"sha" else "md5"
+                for p in case["pws"]:
+                    del expected[:]
+                    try:
+                        b = creds.checkPassword(unhx(p))
+                        E["pw"].append(((hx(expected[-1]) if expected else "x"), bool(b), None))
+                    except Exception as e:  # noqa: BLE001
+                        E["pw"].append(("x", False, type(e).__name__))
+                    try:  # the other way the credentials accept a password: by its H(A1)
+                        E["hash"].append((bool(creds.checkHash(_H(a, creds.username + b":" + realm + b":" + unhx(p)))), None))
+                    except Exception as e:  # noqa: BLE001
+                        E["hash"].append((False, type(e).__name__))
+        for k in ("dec", "user", "fields", "pw", "hash"):
+            R[k] = R["events"][-1][k]
     finally:
         credentials.md5, credentials.secureRandom, credentials.calcResponse = saved[0], saved[1], saved[2]
         _digest.algorithms.clear()
@@ -302,14 +379,23 @@ def _execute(case):
     return R
 
 
+def _show_event(E, full):
+    if E["dec"] != "ok":
+        return E["dec"] if not full else f"dec={E['dec']}"
+    pw = ",".join(("!" + exc) if exc else f"{e}:{int(b)}" for e, b, exc in E["pw"]) or "_"
+    if not full:
+        return "ok/" + pw
+    fields = ",".join(hx(k) + ":" + hx(v) for k, v in sorted(E["fields"].items())) or "_"
+    return f"dec=ok user={hx(E['user'])} fields={fields} pw={pw}"
+
+
 def run_impl(case):
     R = _execute(case)
     ch = ";".join(hx(c["opaque"]) for c in R["chals"]) or "_"
-    if R["dec"] != "ok":
-        return f"ch={ch} dec={R['dec']}"
-    fields = ",".join(hx(k) + ":" + hx(v) for k, v in sorted(R["fields"].items())) or "_"
-    pw = ",".join(("!" + exc) if exc else f"{e}:{int(b)}" for e, b, exc in R["pw"]) or "_"
-    return f"ch={ch} dec=ok user={hx(R['user'])} fields={fields} pw={pw}"
+    pre = ""
+    if case.get("pre"):
+        pre = "pre=" + ";".join(_show_event(E, False) for E in R["events"][:-1]) + " "
+    return f"ch={ch} {pre}{_show_event(R['events'][-1], True)}"
 
 
 def model_line(case):
@@ -320,8 +406,12 @@ def model_line(case):
         if (k, i) not in seen:
             seen.add((k, i))
             ent.append(f"{k}:{hx(i)}:{hx(o)}")
-    return " ".join(["run", case["pk"], case["realm"], issues, str(case["now"]), host_tok(case["host"]),
-                     case["method"], hx(R["header"]), ",".join(case["pws"]) or "_", ";".join(ent) or "_"])
+    head = ["run"]
+    if case.get("pre"):  # a history of responses: `runh`, the earlier (clock, address) pairs after the issues
+        head = ["runh", ";".join(f"{e['now']}:{host_tok(e['host'])}" for e in case["pre"])]
+    return " ".join(head[:1] + [case["pk"], case["realm"], issues] + head[1:] +
+                    [str(case["now"]), host_tok(case["host"]), case["method"], hx(R["header"]),
+                     ",".join(case["pws"]) or "_", ";".join(ent) or "_"])
 
 
 # ------------------------------------------------------------------------------------------------
@@ -331,13 +421,29 @@ def _int_time(ticks):
     return int(ticks / 4.0)
 
 
+# separators between the auth-params that every value survives, whatever the quoting: a comma followed by optional
+# whitespace / a folded line; whitespace BEFORE the comma as well when a space follows it
+SEPS_CLEAN = [b", ", b",", b",\r\n ", b",\t", b",\r\n\t", b",\n ", b",  ", b", \t", b" , ", b"\t, "]
+# whitespace before the comma and no space after it: fine after an unquoted value (the value is stripped), but after a
+# quoted value the regular expression leaves the comma to the next key — legal list syntax (RFC 7230 #rule) that the parser
+# does not read; such renderings are compared with the model only
+SEPS_BARE_ONLY = [b" ,", b"\t,\t", b" ,\t"]
+TAILS = [b" ", b"\r\n", b"\t", b" \r\n", b","]
+
+
 def _clean(case):
     """A well-formed rendering: every value survives the header grammar verbatim (quoted-string without '"', or a
-    non-empty token without ',' / leading '"'; no surrounding whitespace, no line breaks) and nothing was malformed."""
+    non-empty token without ',' / leading '"'; no surrounding whitespace, no line breaks), the separators are a comma
+    with optional whitespace / line folding, and nothing was malformed or sent twice."""
     cl = case.get("client")
     if not cl or case.get("raw") is not None or not cl.get("clean", False):
         return False
-    if any(cl.get(k) for k in ("omit", "override", "extra", "header_mut")):
+    if any(cl.get(k) for k in ("omit", "override", "extra", "header_mut", "dup")):
+        return False
+    sep = unhx(cl["sep"])
+    if sep not in SEPS_CLEAN and not (sep in SEPS_BARE_ONLY and not cl["quotes"]):
+        return False
+    if unhx(cl.get("lead", "-")).strip(b" \t") or unhx(cl.get("tail", "-")) not in [b""] + TAILS:
         return False
     vals = [unhx(cl["user"]), unhx(case["realm"]), unhx(cl["uri"])]
     if cl["qop"] is not None:
@@ -357,22 +463,31 @@ def _clean(case):
     return True
 
 
-def oracle(case, impl_out):
-    R = _execute(case)
+def _judge(case, R, E, which):
+    """The property on ONE decoded response of the history (E: its clock value, address, outcome)."""
+    hdr = R["header"] if len(R["header"]) < 700 else R["header"][:340] + b"...(%d bytes)..." % len(R["header"]) + R["header"][-340:]
     # (1) nothing but the documented login failure
-    if R["dec"] not in ("ok", "!LoginFailed"):
-        return {"key": "decode-raises-" + R["dec"][1:],
-                "detail": f"decode({R['header']!r}) raised {R['dec'][1:]} instead of LoginFailed"}
-    for (e, b, exc), p in zip(R["pw"], case["pws"]):
+    if E["dec"] not in ("ok", "!LoginFailed"):
+        return {"key": "decode-raises-" + E["dec"][1:],
+                "detail": f"{which}decode({hdr!r}) raised {E['dec'][1:]} instead of LoginFailed"}
+    for (e, b, exc), p in zip(E["pw"], case["pws"]):
         if exc:
             return {"key": "checkPassword-raises-" + exc,
-                    "detail": f"decode({R['header']!r}) succeeded and checkPassword({unhx(p)!r}) raised {exc}"}
-    accepted = [p for (e, b, exc), p in zip(R["pw"], case["pws"]) if b]
-    now = _int_time(case["now"])
-    here = host_norm(case["host"])
-    # (2) only if: an accepted response carries an issued challenge unaltered, from its address, in its lifetime
+                    "detail": f"{which}decode({hdr!r}) succeeded and checkPassword({unhx(p)!r}) raised {exc}"}
+    for (hb, hexc), (e, b, exc), p in zip(E["hash"], E["pw"], case["pws"]):
+        if hexc:
+            return {"key": "checkHash-raises-" + hexc,
+                    "detail": f"{which}decode({hdr!r}) succeeded and checkHash(H(A1) of {unhx(p)!r}) raised {hexc}"}
+        if hb != b:
+            return {"key": "checkHash-differs-from-checkPassword",
+                    "detail": f"{which}decode({hdr!r}): checkPassword({unhx(p)!r}) = {b} but checkHash of its H(A1) = {hb}"}
+    accepted = [p for (e, b, exc), p in zip(E["pw"], case["pws"]) if b]
+    now = _int_time(E["now"])
+    here = host_norm(E["host"])
+    cl = case.get("client") if case.get("raw") is None else None
     if accepted and not case.get("insider"):
-        fn, fo = R["fields"].get(b"nonce"), R["fields"].get(b"opaque")
+        # (2) only if, on what the credentials carry: an issued challenge unaltered, from its address, in its lifetime
+        fn, fo = E["fields"].get(b"nonce"), E["fields"].get(b"opaque")
         same = [c for c in R["chals"] if c["nonce"] == fn and c["opaque"] == fo]
         if not same:
             noncanon = False
@@ -384,27 +499,64 @@ def oracle(case, impl_out):
                 except Exception:  # noqa: BLE001
                     pass
             return {"key": "accepted-altered-opaque-same-content" if noncanon else "accepted-altered-challenge",
-                    "detail": f"password accepted although nonce={fn!r} opaque={fo!r} is not a challenge that was issued "
+                    "detail": f"{which}password accepted although nonce={fn!r} opaque={fo!r} is not a challenge that was issued "
                               f"(issued: {[(c['nonce'], c['opaque']) for c in R['chals']]!r})"}
         if not any(host_norm(c["host"]) == here for c in same):
-            return {"key": "accepted-other-client", "detail": f"challenge issued to {same[0]['host']} accepted from {case['host']}"}
+            return {"key": "accepted-other-client", "detail": f"{which}challenge issued to {same[0]['host']} accepted from {E['host']}"}
         if not any(host_norm(c["host"]) == here and now - _int_time(c["t"]) <= LIFE for c in same):
-            return {"key": "accepted-expired", "detail": f"challenge issued at {same[0]['t']/4}s accepted at {case['now']/4}s"}
+            return {"key": "accepted-expired", "detail": f"{which}challenge issued at {same[0]['t']/4}s accepted at {E['now']/4}s"}
+        # (2') only if, on what the CLIENT did (nothing the implementation reports is used): the digest it sent was
+        #      computed with cl.pw over R.sent_nonce, so an accepted password is that one and that nonce is the nonce of a
+        #      challenge issued to this address and still alive — whatever else the header carries (fields sent twice,
+        #      in another capitalisation, values of other challenges)
+        if cl:
+            for p in accepted:
+                if p != cl["pw"]:
+                    return {"key": "accepted-password-not-used",
+                            "detail": f"{which}response computed with {unhx(cl['pw'])!r}: checkPassword({unhx(p)!r}) = True ({hdr!r})"}
+            over = [c for c in R["chals"] if c["nonce"] == R["sent_nonce"]]
+            if not any(host_norm(c["host"]) == here and now - _int_time(c["t"]) <= LIFE for c in over):
+                why = ("is not an issued nonce" if not over else
+                       f"belongs to a challenge issued to {over[0]['host']} at {over[0]['t']/4}s")
+                return {"key": "accepted-replayed-response",
+                        "detail": f"{which}password accepted from {E['host']} at {E['now']/4}s although the response digest was computed "
+                                  f"over nonce {R['sent_nonce']!r}, which {why} ({hdr!r})"}
     # (3) if: a clean response to an unaltered challenge from its address in its lifetime is accepted with the password
-    #     it was computed with, and only with that one
+    #     it was computed with, and only with that one — wherever in the history it is presented
     if _clean(case):
-        cl = case["client"]
         c = R["chals"][cl["use"] % len(R["chals"])]
         valid = (R["sent_nonce"] == c["nonce"] and R["sent_opaque"] == c["opaque"]
                  and host_norm(c["host"]) == here and now - _int_time(c["t"]) <= LIFE)
         if valid:
-            if R["dec"] != "ok":
-                return {"key": "rejected-valid", "detail": f"valid response {R['header']!r} refused by decode"}
-            for (e, b, exc), p in zip(R["pw"], case["pws"]):
+            if E["dec"] != "ok":
+                return {"key": "rejected-valid", "detail": f"{which}valid response {hdr!r} refused by decode"}
+            for (e, b, exc), p in zip(E["pw"], case["pws"]):
                 if b != (p == cl["pw"]):
                     return {"key": "right-password-rejected" if p == cl["pw"] else "wrong-password-accepted",
-                            "detail": f"response computed with {unhx(cl['pw'])!r}: checkPassword({unhx(p)!r}) = {b}"}
+                            "detail": f"{which}response computed with {unhx(cl['pw'])!r}: checkPassword({unhx(p)!r}) = {b} ({hdr!r})"}
     return None
+
+
+def oracle(case, impl_out):
+    R = _execute(case)
+    n = len(R["events"])
+    for i, E in enumerate(R["events"]):
+        which = "" if n == 1 else f"[response {i + 1} of {n} on one factory, at {E['now']/4}s from {E['host']}] "
+        r = _judge(case, R, E, which)
+        if r:
+            if i < n - 1:
+                r["key"] += "-earlier-response"
+            elif n > 1 and _judge_alone(case) is None:
+                r["key"] += "-after-history"
+            return r
+    return None
+
+
+def _judge_alone(case):
+    """The verdict on the last response when it is the only one the factory ever saw."""
+    c = dict(case, pre=[])
+    R = _execute(c)
+    return _judge(c, R, R["events"][-1], "")
 
 
 # ------------------------------------------------------------------------------------------------
@@ -446,7 +598,49 @@ def corpus():
         _case(client={"alg": "sha"}), _case(client={"alg": "md5-sess"}), _case(client={"alg": None, "qop": None}),
         _case(client={"alg": "MD5", "quotes": False, "clean": True}),
         _case(raw=b"username=x".hex(), client=None), _case(raw="-", client=None),
+    ] + _corpus_audit()
+
+
+def _corpus_audit():
+    """Fixed members of the classes added after the mutation audit (harness/mutants/C48)."""
+    two = [{"t": 4000, "host": ["s", "10.2.3.4"], "rnd": "000102030405060708090a0b"},
+           {"t": 4000 + 4 * LIFE + 400, "host": ["s", "10.9.9.9"], "rnd": "aa0102030405060708090a0b"}]
+    atk = dict(issues=two, now=two[1]["t"] + 40, host=["s", "10.9.9.9"])
+    out = [
+        # header grammar: tab / folded-with-tab separators, optional whitespace before the comma, trailing whitespace
+        _case(client={"sep": b",\t".hex()}), _case(client={"sep": b",\r\n\t".hex()}),
+        _case(client={"sep": b" , ".hex(), "quotes": False, "tail": b" ".hex()}),
+        _case(client={"sep": b" ,".hex(), "quotes": False, "tail": b"\r\n".hex()}),
+        _case(client={"sep": b" ,".hex()}), _case(client={"sep": b"\t,\t".hex()}),  # quoted: comma left to the next key (tie only)
+        _case(client={"lead": b"Digest ".hex(), "tail": b",".hex()}),
+        # empty and long values
+        _case(client={"uri": "-"}), _case(client={"uri": (b"/" + b"seg/" * 275).hex()}),
+        _case(client={"uri": (b"/" + b"a" * 4200).hex(), "quotes": False}), _case(client={"user": (b"u" * 1100).hex()}),
+        # a response without its digest; a qop that is neither auth nor auth-int
+        _case(client={"omit": ["response"]}), _case(client={"override": [["qop", b"auth,auth-int".hex()]]}),
+        # forged opaque whose time field is a float spelling
+        _case(client={"opaque_mut": [{"kind": "forge_now", "time": b"inf".hex(), "realpk": False, "pk": "00" * 12}]}),
+        _case(client={"opaque_mut": [{"kind": "forge_now", "time": b"1e999".hex(), "realpk": False, "pk": "00" * 12}]}),
+        _case(client={"opaque_mut": [{"kind": "forge_now", "time": b"1000.0".hex(), "realpk": True, "pk": "00" * 12}]}, insider=True),
+        # one more '=' after the opaque; upper-cased digest part
+        _case(client={"opaque_mut": [{"kind": "append", "b": b"=".hex()}]}),
+        _case(client={"opaque_mut": [{"kind": "digest", "m": {"kind": "upper", "pos": 0}}]}),
+        # the same response presented to one factory again: in time twice; in time, then expired; then from elsewhere
+        _case(pre=[{"now": 4004, "host": ["s", "10.2.3.4"]}]),
+        _case(pre=[{"now": 4004, "host": ["s", "10.2.3.4"]}], now=4000 + 4 * LIFE + 4),
+        _case(pre=[{"now": 4004, "host": ["b", b"10.2.3.4".hex()]}], host=["s", "10.2.3.5"]),
+        _case(pre=[{"now": 4000 + 4 * LIFE + 4, "host": ["s", "10.2.3.4"]}, {"now": 4004, "host": ["s", "10.2.3.5"]}]),
+        # through twisted.web's wrapper factory
+        _case(via="web"), _case(via="web", host=["s", "10.2.3.5"]), _case(via="web", pre=[{"now": 4004, "host": ["s", "10.2.3.4"]}]),
     ]
+    # a captured response (challenge 0: expired, issued to 10.2.3.4) in a header that also carries the attacker's own live
+    # nonce and opaque (challenge 1), first / last, same / another capitalisation
+    for pos in (0, -1):
+        for n, o in ((b"nonce", b"opaque"), (b"Nonce", b"Opaque"), (b"NONCE", b"opaque")):
+            out.append(_case(client={"dup": [[pos, n.hex(), ["n", 1]], [pos, o.hex(), ["o", 1]]]}, **atk))
+    out.append(_case(client={"dup": [[0, b"nonce".hex(), ["n", 1]], [0, b"opaque".hex(), ["o", 1]]], "omit": ["opaque"]}, **atk))
+    out.append(_case(client={"dup": [[-1, b"Nonce".hex(), ["n", 0]], [3, b"response".hex(), ["r"]]]}))
+    return out
 
 
 VAL = [bytes([b]) for b in b"abcxyzABZ019/:=-_.~%+"] + [b" ", b"\xc3\xa9", b"\xff"]
@@ -505,14 +699,17 @@ def _opaque_mut(rng, nissues, pk_known, nowint=1000):
     us = b"_".join(n[i:i + 1] for i in range(len(n))) if not n.startswith(b"-") else n
     tf = rng.choice([n, b"+" + n, b" " + n + b" ", us, n[:1] + b"__" + n[1:], b"_" + n, n + b"_", b"-5", b"", b"x", n + b".0", b"0x10",
                      b"\t" + n + b"\n", n + b"\x00", b"0" * (4300 - len(n)) + n, b"0" * (4301 - len(n)) + n, b"9" * 4300, b"9" * 4301,
-                     b"1" + b"_0" * 4300, b"99999999999", n + b",7", b"\x1c" + n, b"\x0b\x0c\r" + n, b"+ " + n, b"-" + n, b"--" + n])
+                     b"1" + b"_0" * 4300, b"99999999999", n + b",7", b"\x1c" + n, b"\x0b\x0c\r" + n, b"+ " + n, b"-" + n, b"--" + n,
+                     # spellings other numeric parsers take: floats, infinities, exponents, radix prefixes, non-ASCII digits
+                     b"inf", b"-inf", b"Infinity", b"nan", b"1e999", b"-1e999", n + b"e0", n + b"e400", n + b".5", b"1e3", b"0b1", b"0o17",
+                     b"\xd9\xa1\xd9\xa2", b"\xef\xbc\x91", n + b"L", n + b"j", b"1" + b"0" * 308, b"1" + b"0" * 309, b"9" * 400, b"True"])
     m = {"kind": "forge_now", "time": tf.hex(), "realpk": pk_known, "pk": "00" * 12}
     if rng.random() < 0.3:
         m["b64mut"] = _bmut(rng)
     return m
 
 
-def _structured(rng):
+def _structured(rng, tier="quick"):
     nis = rng.choice([1, 1, 2, 3])
     issues = []
     t = rng.randint(0, 8000)
@@ -542,11 +739,25 @@ def _structured(rng):
     quotes = rng.random() < 0.7
     pw = _val(rng, 0, 8) if rng.random() < 0.9 else b""
     pw = rng.choice([pw, pw, b"pass:word", b"\x00\xff"])
-    cl = {"use": use, "user": _val(rng).replace(b",", b"").hex(), "pw": pw.hex(), "uri": (b"/" + _val(rng, 0, 8)).hex(), "alg": alg,
+    user, uri = _val(rng).replace(b",", b""), b"/" + _val(rng, 0, 8)
+    r = rng.random()
+    if r < 0.05:
+        uri = b""  # legal in a quoted string
+    elif r < 0.10:  # sizes: a long request-uri / user name (a header line may be up to 16 kB in twisted.web)
+        n = rng.choice([200, 600, 1000, 1100, 2100, 2100, 4200] * 3 + ([9000, 15000] if tier == "thorough" else []))
+        uri = (b"/" + b"".join(rng.choice(VAL[:21]) for _ in range(7)) * (n // 7 + 1))[:n].rstrip() + b"z"
+    elif r < 0.12:
+        user = (b"".join(rng.choice(VAL[:12]) for _ in range(5)) * 300)[:rng.choice([300, 1100, 2500])]
+    sep = b", " if rng.random() < 0.45 else rng.choice([b",", b",\r\n "] + SEPS_CLEAN + SEPS_BARE_ONLY)
+    cl = {"use": use, "user": user.hex(), "pw": pw.hex(), "uri": uri.hex() or "-", "alg": alg,
           "qop": qop, "nc": b"%08x" % rng.randint(1, 9), "cnonce": hexlify(bytes(rng.randrange(256) for _ in range(4))).hex(),
-          "quotes": quotes, "sep": rng.choice([b", ", b",", b",\r\n ", b", "]).hex(), "clean": True,
+          "quotes": quotes, "sep": sep.hex(), "clean": True,
           "rot": rng.randint(0, 9)}
     cl["nc"] = cl["nc"].hex()
+    if rng.random() < 0.25:
+        cl["tail"] = rng.choice(TAILS).hex()
+    if rng.random() < 0.08:
+        cl["lead"] = rng.choice([b" ", b"\t", b"Digest "]).hex()
     insider = False
     r = rng.random()
     if r < 0.35:
@@ -583,18 +794,89 @@ def _structured(rng):
                 m["x"] = rng.choice([1, 0x80, 0x10])
     pws = [cl["pw"], (pw + b"x").hex(), (pw[:-1]).hex() if pw else "78", rng.choice([b"", b"secret", b"\xff"]).hex()]
     pws = list(dict.fromkeys(pws))
-    return {"pk": bytes(rng.randrange(256) for _ in range(rng.choice([12, 12, 0, 3]))).hex() or "-",
-            "realm": rng.choice([b"test realm", b"r", b"", b"a:b"]).hex() or "-", "falg": rng.choice(["md5", "sha"]),
-            "issues": issues, "now": now, "host": host, "method": rng.choice([b"GET", b"POST", b""]).hex() or "-",
-            "raw": None, "client": cl, "pws": pws, "insider": insider}
+    c = {"pk": bytes(rng.randrange(256) for _ in range(rng.choice([12, 12, 0, 3]))).hex() or "-",
+         "realm": rng.choice([b"test realm", b"r", b"", b"a:b"]).hex() or "-", "falg": rng.choice(["md5", "sha"]),
+         "issues": issues, "now": now, "host": host,
+         "method": rng.choice([b"GET", b"GET", b"POST", b"", b"get", b"M-SEARCH", b"REGISTER"]).hex() or "-",
+         "raw": None, "client": cl, "pws": pws, "insider": insider}
+    r = rng.random()
+    if r < 0.10 and nis > 1:
+        _replay(rng, c)
+    elif r < 0.14:  # a field of the same challenge sent twice (same / another capitalisation)
+        f = rng.choice(["nonce", "opaque", "response"])
+        cl["dup"] = [[rng.choice([0, -1, rng.randint(0, 9)]), _capital(rng, f).hex(), [f[0], use]]]
+    if rng.random() < 0.3:
+        _history(rng, c)
+    if rng.random() < 0.15:
+        _through_web(c)
+    return c
+
+
+def _capital(rng, name):
+    return rng.choice([name, name, name.capitalize(), name.upper()]).encode()
+
+
+def _replay(rng, c):
+    """The victim's captured response (challenge `use`, by now expired and / or issued to another address) inside a header
+    that ALSO carries the nonce and opaque of the attacker's own live challenge `j`, before or after it, in the same or
+    another capitalisation; presented from the attacker's address within the lifetime of `j`."""
+    cl, issues = c["client"], c["issues"]
+    use = cl["use"]
+    j = rng.choice([i for i in range(len(issues)) if i != use])
+    if rng.random() < 0.6:
+        issues[j]["host"] = rng.choice([["s", "10.9.9.9"], ["b", b"10.9.9.9".hex()], ["N"]])
+    if rng.random() < 0.6:
+        issues[j]["t"] = issues[use]["t"] + 4 * LIFE + rng.randint(4, 9000)
+    c["host"] = issues[j]["host"]
+    c["now"] = issues[j]["t"] + rng.randint(0, 4 * LIFE - 8)
+    for k in ("opaque_mut", "nonce_mut", "omit", "override", "extra", "header_mut"):
+        cl.pop(k, None)
+    c["insider"] = False
+    pos = rng.choice([0, 0, -1, -1, rng.randint(0, 9)])
+    what = rng.choice(["no", "no", "n", "o"])
+    cl["dup"] = [[pos, _capital(rng, f).hex(), [f[0], j]] for f in ("nonce", "opaque") if f[0] in what]
+    if rng.random() < 0.25:
+        cl["omit"] = ["opaque"]  # only the attacker's opaque is in the header
+
+
+def _history(rng, c):
+    """Earlier presentations of the same response to the same factory, at other clock values / from other addresses."""
+    cl, issues = c["client"], c["issues"]
+    it = issues[cl["use"] % len(issues)] if cl else issues[0]
+    pre = []
+    for _ in range(rng.choice([1, 1, 2])):
+        r = rng.random()
+        if r < 0.55:  # where the challenge is valid
+            e = {"now": it["t"] + rng.choice([0, 1, 40, rng.randint(0, 4 * LIFE - 8)]),
+                 "host": it["host"] if rng.random() < 0.7 else _equiv_host(rng, it["host"])}
+        elif r < 0.75:
+            e = {"now": c["now"], "host": c["host"]}
+        else:
+            e = {"now": it["t"] + rng.choice([-40, 4 * LIFE + 8, rng.randint(0, 8 * LIFE)]), "host": _host(rng)}
+        pre.append(e)
+    c["pre"] = pre
+
+
+def _through_web(c):
+    """The same history through twisted.web's wrapper factory and request objects: addresses become the str hosts of
+    IPv4Address / IPv6Address (no-address channels become one fixed address)."""
+    def conv(h):
+        n = host_norm(h)
+        return ["s", n.decode("ascii") if n else "0.0.0.0"]
+    for i in c["issues"]:
+        i["host"] = conv(i["host"])
+    for e in c.get("pre") or []:
+        e["host"] = conv(e["host"])
+    c["host"] = conv(c["host"])
+    c["via"] = "web"
 
 
 RAWTOK = [b"username", b"nonce", b"opaque", b"uri", b"response", b"=", b"=", b'"', b'"', b",", b" ", b"a", b"b-Yg==", b"\r\n",
           b"\n", b"\xff", b"\t", b"Digest ", b"x", b"=\"", b"\",", b"-", b"QQ==", b"algorithm=zz"]
 
 
-def _raw(rng):
-    c = _structured(rng)
+def _raw(rng, tier="quick"):
+    c = _structured(rng, tier)
     c["client"] = None
     c["insider"] = False
     c["raw"] = b"".join(rng.choice(RAWTOK) for _ in range(rng.randint(0, 14))).hex() or "-"
@@ -604,7 +886,7 @@ def _raw(rng):
 def generate(rng, tier):
     n = 1500 if tier == "quick" else 30000
     for i in range(n):
-        yield _raw(rng) if rng.random() < 0.08 else _structured(rng)
+        yield _raw(rng, tier) if rng.random() < 0.08 else _structured(rng, tier)
 
 
 def search(rng, tier, disagreeing):
@@ -617,8 +899,26 @@ def search(rng, tier, disagreeing):
 def shrink(c):
     c = json.loads(json.dumps(c))
     cl = c.get("client")
+    if c.get("via"):
+        d = json.loads(json.dumps(c))
+        del d["via"]
+        yield d
+    for i in range(len(c.get("pre") or [])):
+        d = json.loads(json.dumps(c))
+        del d["pre"][i]
+        yield d
     if cl:
-        for k in ("opaque_mut", "nonce_mut", "header_mut", "extra", "omit", "override"):
+        for k in ("tail", "lead"):
+            if cl.get(k):
+                d = json.loads(json.dumps(c))
+                del d["client"][k]
+                yield d
+        if len(unhx(cl["uri"])) > 20:
+            for n in (len(unhx(cl["uri"])) // 2, len(unhx(cl["uri"])) - 1):
+                d = json.loads(json.dumps(c))
+                d["client"]["uri"] = unhx(cl["uri"])[:n].hex()
+                yield d
+        for k in ("opaque_mut", "nonce_mut", "header_mut", "extra", "omit", "override", "dup"):
             v = cl.get(k)
             if v:
                 for i in range(len(v)):
@@ -664,4 +964,12 @@ def tag(c, out):
     nm = "+".join(sorted({m["kind"] for m in cl.get("nonce_mut") or []}))
     mal = "+".join(k for k in ("omit", "override", "extra", "header_mut") if cl.get(k))
     pw = "".join("!" if exc else str(int(b)) for e, b, exc in R["pw"])
-    return f"{R['dec']}|o:{om}|n:{nm}|{hrel}|{trel}|{(cl['alg'] or '-').lower()}|{cl['qop'] or '-'}|{mal}|{pw}"
+    sep = unhx(cl["sep"])
+    form = ("std" if sep in (b", ", b",", b",\r\n ") else "bareonly" if sep in SEPS_BARE_ONLY else "tab" if b"\t" in sep else "ows")
+    form += ("+tail" if cl.get("tail") else "") + ("+lead" if cl.get("lead") else "")
+    size = "long" if len(R["header"]) > 1000 else "empty-uri" if cl["uri"] == "-" else ""
+    dup = "+".join(sorted({unhx(k).decode() + ("" if src[0] in "vr" else "=own" if src[1] % len(R["chals"]) == cl["use"] % len(R["chals"]) else "=other")
+                           for _, k, src in cl.get("dup") or []}))
+    hist = ";".join(E["dec"][:3] + "".join(str(int(b)) for e, b, exc in E["pw"]) for E in R["events"][:-1])
+    return (f"{R['dec']}|o:{om}|n:{nm}|{hrel}|{trel}|{(cl['alg'] or '-').lower()}|{cl['qop'] or '-'}|{mal}|{pw}"
+            f"|{form}|{size}|d:{dup}|h:{hist}|{'web' if _via_web(c) else ''}")
